@@ -178,7 +178,21 @@ func (m *Monitor) AfterBegin() *Fail {
 
 // AfterCommit is the C10 oracle after commit T with no reader open: pending ⊆ pages(T-1) \ pages(T).
 func (m *Monitor) AfterCommit(prev map[uint64]bool) *Fail {
-	if !m.C10 || m.readersAtBegin > 0 {
+	if !m.C10 {
+		return nil
+	}
+	// Pages the commit released (in the previous version, not in the new one) may be reused by the NEXT write
+	// transaction at the earliest: when the commit returns they must be withheld, not already allocatable - a
+	// reader may have begun on the previous version while the commit was running.
+	if flst := bolt.VerifFreelist(m.x.DB); flst != nil {
+		cur := m.PageSets[m.x.CommittedID]
+		for _, f := range fl.VerifDump(flst).Free {
+			if prev[uint64(f)] && !cur[uint64(f)] {
+				return &Fail{Kind: "mismatch", At: -1, Msg: fmt.Sprintf("[c10] page %d was released by commit %d and is already allocatable when that commit returns", f, m.x.CommittedID)}
+			}
+		}
+	}
+	if m.readersAtBegin > 0 {
 		return nil
 	}
 	for _, r := range m.x.Readers {
